@@ -113,6 +113,11 @@ pub enum Shape {
     /// compressor's table normalisation to its largest sums (accuracy log limit 8 for offsets, 9 for
     /// the lengths). which: 0 offsets, 1 literal lengths, 2 match lengths, 3 all three
     FlatCodes { which: u8, first: u8, k: u8, per: u8 },
+    /// > 1024 Huffman-friendly literals (the block gets a NEW Huffman table) followed by thousands of
+    /// length-3 matches at offsets beyond 8 MiB (23 extra bits + code): each costs more bits than the three bytes it
+    /// stands for, so the block as a whole does not shrink and is stored raw - after its literals
+    /// were already entropy-coded. Needs > 8 MiB of history (offsets are clamped to what exists otherwise)
+    CostlyRaw { lits: u32, alpha: u8, n: u16 },
 }
 
 #[derive(Clone, Debug, Serialize, Deserialize)]
@@ -353,9 +358,21 @@ pub fn flat_codes_strategy() -> impl Strategy<Value = Case> {
 fn case_strategy(tier: Tier) -> impl Strategy<Value = Case> {
     let maxb = if tier == Tier::Quick { 6 } else { 40 };
     prop_oneof![
-        5 => (10u8..=23, prop_oneof![2 => Just(0u32), 3 => any::<u32>()], prop::collection::vec(shape_strategy(), 1..=maxb), any::<u32>(), prop::bool::weighted(0.08))
+        100 => (10u8..=23, prop_oneof![2 => Just(0u32), 3 => any::<u32>()], prop::collection::vec(shape_strategy(), 1..=maxb), any::<u32>(), prop::bool::weighted(0.08))
             .prop_map(|(window_log, window_extra, blocks, seed, uncompressed_level)| Case::Generated(ParseCase { window_log, window_extra, blocks, seed, uncompressed_level })),
-        3 => (
+        // Huffman table T1 (compressed block) -> new table T2 in a block that ends up stored raw ->
+        // literals that fit T2: what the compressor remembers across a raw fallback
+        1 => (Just(23u8), Just(1u32 << 22), 2u8..=40, 1100u32..=6000, 4000u16..=12_000, prop::collection::vec(shape_strategy(), 0..=2), any::<u32>()).prop_map(|(window_log, window_extra, alpha, lits, n, tail, seed)| {
+            let mut blocks = vec![Shape::HugeLl { ll: 131_069 }; 67];
+            blocks.extend([
+                Shape::ThresholdLiterals { n: lits, alpha },
+                Shape::CostlyRaw { lits: lits + 700, alpha: alpha.saturating_add(3), n },
+                Shape::ThresholdLiterals { n: lits + 300, alpha: alpha.saturating_add(3) },
+            ]);
+            blocks.extend(tail);
+            Case::Generated(ParseCase { window_log, window_extra, blocks, seed, uncompressed_level: false })
+        }),
+        60 => (
             data_strategy(120_000),
             prop_oneof![3 => 16u32..=300, 3 => 300u32..=5000, 1 => Just(65_536u32), 1 => Just(131_072u32), 1 => 1u32..=15],
             10u8..=19,
@@ -370,7 +387,7 @@ fn case_strategy(tier: Tier) -> impl Strategy<Value = Case> {
                 let uncompressed_level = if uncompressed_window_log.is_some() { window_extra % 2 == 0 } else { uncompressed_level };
                 Case::Tracking(TrackingCase { data, space, window_log, window_extra, min_match, uncompressed_level, frames, uncompressed_window_log })
             }),
-        1 => (data_strategy(400_000), 1i32..=19, prop_oneof![Just(0u32), 10u32..=20]).prop_map(|(mut data, level, wlog)| {
+        20 => (data_strategy(400_000), 1i32..=19, prop_oneof![Just(0u32), 10u32..=20]).prop_map(|(mut data, level, wlog)| {
             if data.len % (BLK as u32) < 16 {
                 data.len += 16;
             }
@@ -509,6 +526,16 @@ pub fn render(pc: &ParseCase) -> Script {
             Shape::ThresholdLiterals { n, alpha } => {
                 let n = (*n as usize).min(budget.saturating_sub(8));
                 add(&mut data, &mut r, n, 5, u64::MAX, *alpha as u64, &mut seqs, &mut budget);
+            }
+            Shape::CostlyRaw { lits, alpha, n } => {
+                let l = (*lits as usize).min(budget.saturating_sub(8));
+                add(&mut data, &mut r, l, 3, 1000 + (1 << 23) + 5, *alpha as u64, &mut seqs, &mut budget);
+                for _ in 0..*n {
+                    let far = 1000 + (1 << 23) + r.below(200_000);
+                    if !add(&mut data, &mut r, 0, 3, far, 4, &mut seqs, &mut budget) {
+                        break;
+                    }
+                }
             }
             Shape::Incompressible { n } => {
                 let n = (*n as usize).min(budget.saturating_sub(8));
@@ -654,6 +681,8 @@ pub fn check(case: &Case, ctx: &mut CaseCtx) -> CaseResult {
                 }
             } else {
                 ctx.feat(if b.btype == 0 { "block:raw_fallback" } else { "block:rle" });
+                ctx.feat_if(b.btype == 0 && s.seqs.len() > 1000 && i + 1 < data_blocks.len() && data_blocks[i + 1].lit.as_ref().map(|l| l.ltype >= 2).unwrap_or(false), "block:raw_fallback_after_entropy_coding_then_huffman_literals");
+                ctx.feat_if(b.btype == 0 && i + 1 < data_blocks.len() && data_blocks[i + 1].lit.as_ref().map(|l| l.ltype == 3).unwrap_or(false), "block:treeless_literals_right_after_a_raw_block");
             }
             let n = s.seqs.len();
             ctx.feat_if(n >= 0x7F00, "parse:>=32512_sequences");
